@@ -323,19 +323,30 @@ func setXid(m util.Message, xid uint32) {
 	setXidReflect(m, xid)
 }
 
-// TestC11Idle: a connection that is quiet for longer than the stream's write
-// timeout (10 s) and then used again. The scripted connection honours read and
-// write deadlines the way a TCP connection does, so a deadline armed for the
-// wrong direction ends the stream during the pause; everything submitted after
-// the pause must still reach the wire, and nothing is published on Error.
+// TestC11Idle: timing around the stream's 10 s write timeout, on a connection
+// that honours read and write deadlines the way a TCP connection does.
+//   - a message submitted 9.6 s after the previous one whose write the peer holds
+//     up for 1 s: the timeout applies to this write, counted from its start (a
+//     deadline left over from the previous write would expire in the middle);
+//   - then 10.5 s of silence in both directions: a deadline armed for the wrong
+//     direction ends the stream during the pause.
+//
+// Everything submitted reaches the wire in order, nothing is published on Error,
+// and the library does not terminate the process.
 func TestC11Idle(t *testing.T) {
 	c := ev.For("C11")
 	defer c.Done()
-	c.Rule("TestC11Idle: 3 messages, a pause of 10.5 s (longer than the stream's write timeout) with the inbound side idle, 3 more messages, on a connection that honours deadlines; oracle: all 6 encodings on the wire in order, nothing on Error.")
+	c.Rule("TestC11Idle: 3 messages; 9.6 s later one message whose write the peer delays by 1 s; 10.5 s of silence (longer than the stream's write timeout); 3 more messages - on a connection that honours read and write deadlines; " +
+		"oracle: all 7 encodings on the wire in order, nothing on Error, no log.Fatal.")
 	if !shard0() {
 		return
 	}
 	conn := newScriptConn(nil, nil)
+	conn.wdelay = func(i int) {
+		if i == 3 {
+			time.Sleep(time.Second)
+		}
+	}
 	ms := util.NewMessageStream(conn, copyingParser{})
 	var want []byte
 	send := func(from, to int) {
@@ -350,9 +361,12 @@ func TestC11Idle(t *testing.T) {
 	}
 	c.Eval()
 	send(0, 3)
-	time.Sleep(10500 * time.Millisecond)
+	time.Sleep(9600 * time.Millisecond)
 	c.Eval()
-	send(3, 6)
+	send(3, 4) // write #3: held up by the peer for 1 s, across the 10 s mark of the first writes
+	time.Sleep(10500*time.Millisecond + time.Second)
+	c.Eval()
+	send(4, 7)
 	deadline := time.Now().Add(lossWait)
 	for conn.WrittenBytes() < len(want) && time.Now().Before(deadline) {
 		time.Sleep(5 * time.Millisecond)
@@ -370,10 +384,10 @@ func TestC11Idle(t *testing.T) {
 	}
 	conn.Close()
 	if !bytes.Equal(got, want) || len(errs) > 0 {
-		c.Report(t, "C11|idle|lost-after-pause", fmt.Sprintf("3 messages, a 10.5 s pause, 3 more: %d of %d bytes on the wire, errors %v", len(got), len(want), errs), map[string]any{"wire": hx(got)})
+		c.Report(t, "C11|idle|lost-around-the-write-timeout", fmt.Sprintf("3 messages, 9.6 s, a write delayed by 1 s, 10.5 s of silence, 3 more: %d of %d bytes on the wire, errors %v", len(got), len(want), errs), map[string]any{"wire": hx(got)})
 		return
 	}
-	c.NonTrivial(ev.HashStr("idle", "before"))
-	c.NonTrivial(ev.HashStr("idle", "after"))
+	c.NonTrivial(ev.HashStr("idle", "slow write across the old deadline"))
+	c.NonTrivial(ev.HashStr("idle", "after the pause"))
 	c.Label("idle_longer_than_write_timeout")
 }
